@@ -124,12 +124,14 @@ bool CPyList_SetItem(PyObject *list, CPyTagged index, PyObject *value) {
         if (n >= 0) {
             if (n >= size) {
                 PyErr_SetString(PyExc_IndexError, "list assignment index out of range");
+                Py_DECREF(value);  // the caller handed over its reference (steals=[False, False, True])
                 return false;
             }
         } else {
             n += size;
             if (n < 0) {
                 PyErr_SetString(PyExc_IndexError, "list assignment index out of range");
+                Py_DECREF(value);  // the caller handed over its reference (steals=[False, False, True])
                 return false;
             }
         }
@@ -140,6 +142,7 @@ bool CPyList_SetItem(PyObject *list, CPyTagged index, PyObject *value) {
         return true;
     } else {
         PyErr_SetString(PyExc_OverflowError, CPYTHON_LARGE_INT_ERRMSG);
+        Py_DECREF(value);  // the caller handed over its reference (steals=[False, False, True])
         return false;
     }
 }
@@ -149,11 +152,13 @@ bool CPyList_SetItemInt64(PyObject *list, int64_t index, PyObject *value) {
     if (unlikely((uint64_t)index >= size)) {
         if (index > 0) {
             PyErr_SetString(PyExc_IndexError, "list assignment index out of range");
+            Py_DECREF(value);  // the caller handed over its reference (steals=[False, False, True])
             return false;
         }
         index += size;
         if (index < 0) {
             PyErr_SetString(PyExc_IndexError, "list assignment index out of range");
+            Py_DECREF(value);  // the caller handed over its reference (steals=[False, False, True])
             return false;
         }
     }
